@@ -22,6 +22,7 @@ import (
 	_ "github.com/go-python/gpython/zzverif/engines/lifecycle"
 	_ "github.com/go-python/gpython/zzverif/engines/compiledet"
 	_ "github.com/go-python/gpython/zzverif/engines/scope"
+	_ "github.com/go-python/gpython/zzverif/engines/srcfault"
 )
 
 type propCfg struct {
@@ -35,7 +36,8 @@ type propCfg struct {
 
 var props = map[string]propCfg{
 	"C03": {Engines: []string{"scope"}, QuickRuns: 6000, QuickSecs: 60, ThoroughRuns: 400000, ThoroughSecs: 1200, Level: "exploration"},
-	"C18": {Engines: []string{"compiledet"}, QuickRuns: 4000, QuickSecs: 60, ThoroughRuns: 400000, ThoroughSecs: 1200, Level: "exploration"},
+	"C18": {Engines: []string{"compiledet"}, QuickRuns: 2000, QuickSecs: 50, ThoroughRuns: 400000, ThoroughSecs: 1200, Level: "exploration"},
+	"C11": {Engines: []string{"srcfault"}, QuickRuns: 400000, QuickSecs: 60, ThoroughRuns: 20000000, ThoroughSecs: 1200, Level: "fault_enumeration"},
 	"C09": {Engines: []string{"lifecycle"}, QuickRuns: 40000, QuickSecs: 40, ThoroughRuns: 3000000, ThoroughSecs: 900, Level: "exploration"},
 }
 
@@ -135,7 +137,7 @@ func cmdWork(args []string) int {
 	deadline := start.Add(time.Duration(*secs) * time.Second)
 	idx := *from + *w
 	for idx < *from+*runs {
-		if time.Now().After(deadline) {
+		if res.TimedOut || time.Now().After(deadline) {
 			res.TimedOut = true
 			break
 		}
@@ -151,6 +153,10 @@ func cmdWork(args []string) int {
 			break
 		}
 		for bi, sc := range batch {
+			if time.Now().After(deadline) {
+				res.TimedOut = true
+				break
+			}
 			o := e.Exec(sc, harness.ExecOpts{})
 			res.Evaluations++
 			res.LastIndex = idxs[bi]
